@@ -1,4 +1,7 @@
 mod e1;
+mod e4;
+mod e5;
+mod e7;
 mod explore;
 mod families;
 mod glue;
@@ -34,6 +37,30 @@ fn main() {
         "C01" | "C02" | "C03" | "C04" | "C07" | "C08" | "C10" | "C12" | "C13" | "C14" | "C19" => {
             run_e1_property(id, thorough, &mut ev, t0);
         }
+        "C15" => run_c15(thorough, &mut ev, t0),
+        "C16" => {
+            ev.families.push(e4::c16_values(id));
+            ev.families.push(e4::c16_strings(id, if thorough { 5 } else { 4 }));
+            ev.nontrivial_rule = "every string of the stated length over the stated alphabet is one case; non-trivial = strings accepted by some parser (counter e4_accepted) plus all value round trips".into();
+            ev.nontrivial_keys = vec!["e4_accepted", "c16_action_values"];
+        }
+        "C17" => {
+            ev.families.push(e5::run(id, thorough));
+            ev.nontrivial_rule = "states = constructed states hashed; transitions = pairs of states differing in exactly one feature that were compared; non-trivial = pairs of push/pull statuses + step pairs + side pairs".into();
+            ev.nontrivial_keys = vec!["c17_status_pairs", "c17_step_pairs", "c17_side_pairs"];
+        }
+        "C20" => {
+            let (r, machinery) = e7::run(id, thorough);
+            ev.families.push(r);
+            ev.nontrivial_rule = "one case = one child process (profile, stack size, ownership shape, history length N); non-trivial = runs whose history has at least 1e5 nodes (the lengths at which the unfixed recursive drop overflowed a 2 MiB stack were 2e4 (dev) / 8e4 (release))".into();
+            ev.nontrivial_keys = vec!["c20_runs_with_at_least_1e5_history_nodes"];
+            ev.assumptions.push("recursion depth of a recursive drop grows monotonically with the history length, so the longest passing length covers the shorter ones; the 256 KiB rows bound per-node stack use".into());
+            if machinery {
+                let _ = report::finish(&ev, t0.elapsed().as_secs_f64());
+                println!("MACHINERY-ERROR: a stackchild run could not be evaluated (planned game not playable or binary missing)");
+                std::process::exit(2);
+            }
+        }
         _ => usage(),
     }
     let code = report::finish(&ev, t0.elapsed().as_secs_f64());
@@ -58,7 +85,7 @@ fn run_e1_property(id: &str, thorough: bool, ev: &mut Evidence, t0: Instant) {
         if fam.n == 0 {
             continue;
         }
-        let o = e1::E1Opts { prop: id, checks, move_number: 2, deadline, chunk: 1 };
+        let o = e1::E1Opts { prop: id, checks, move_number: 2, deadline, chunk: 1, roots_only: false };
         let r = e1::run_family(fam, &o);
         eprintln!("  {} : roots={} states={} transitions={} {:.1}s {}", r.family, r.stats.roots, r.stats.states, r.stats.transitions, r.wall_s, r.note);
         ev.families.push(r);
@@ -81,4 +108,35 @@ fn run_e1_property(id: &str, thorough: bool, ev: &mut Evidence, t0: Instant) {
         "C19" => vec!["c19_queries"],
         _ => vec![],
     };
+}
+
+fn run_c15(thorough: bool, ev: &mut Evidence, t0: Instant) {
+    let id = "C15";
+    ev.families.push(e4::c15_grammar(id, thorough));
+    ev.families.push(e4::c15_short_strings(id, if thorough { 6 } else { 5 }));
+    let deadline = Some(t0 + Duration::from_secs(if thorough { 3600 } else { 45 }));
+    // round trips over reachable states: every state of F1 (all step prefixes), every F2 root, every FS state of one turn
+    let o_all = e1::E1Opts { prop: id, checks: C15, move_number: 2, deadline, chunk: 1, roots_only: false };
+    ev.families.push(e1::run_family(&families::f1(), &o_all));
+    for mn in [1usize, 3, 50, 1_000_000, (1usize << 32) + 1] {
+        let o = e1::E1Opts { prop: id, checks: PARSE_LINK, move_number: mn, deadline, chunk: 1, roots_only: true };
+        let mut r = e1::run_family(&families::f1(), &o);
+        r.family = format!("{} — roots only, starting move number {}", r.family, mn);
+        ev.families.push(r);
+    }
+    if thorough {
+        ev.families.push(e1::run_family(&families::f2(), &o_all));
+    } else {
+        let o = e1::E1Opts { prop: id, checks: PARSE_LINK, move_number: 2, deadline, chunk: 1, roots_only: true };
+        let mut r = e1::run_family(&families::f2(), &o);
+        r.family = format!("{} — roots only", r.family);
+        ev.families.push(r);
+    }
+    let fs = families::fs(&verif_dir().join("seeds"));
+    if fs.n > 0 {
+        let o = e1::E1Opts { prop: id, checks: PARSE_LINK, move_number: 2, deadline, chunk: 1, roots_only: !thorough };
+        ev.families.push(e1::run_family(&fs, &if thorough { e1::E1Opts { checks: C15, ..o } } else { o }));
+    }
+    ev.nontrivial_rule = "strings: every string of the stated grammar / length is one case, non-trivial = oversized diagrams + accepted strings; states: every visited state printed and parsed back (counter parse_links)".into();
+    ev.nontrivial_keys = vec!["c15_oversized_diagrams", "parse_links"];
 }
